@@ -251,8 +251,14 @@ pub fn check_files(case: &FileCase) -> CaseResult {
                 let mut got: Option<Vec<u8>> = None;
                 if v.exists(&path) {
                     let mut b = vec![];
-                    match v.read(&path).map(|mut h| h.read_to_end(&mut b)) {
-                        Ok(Ok(_)) => got = Some(b),
+                    match v.read(&path).map(|mut h| h.read_to_end(&mut b).map(|_| h)) {
+                        Ok(Ok(mut h)) => {
+                            // the same handle, moved around with seeks from every origin, keeps returning the file's bytes
+                            if let Some(d) = crate::fsapply::handle_session_mismatch(&mut h, &b) {
+                                return Err(Failure::new(format!("read|handle-session-differs-from-cursor|{}", backend), format!("step {}: read({}): {}", step + 1, FILES[k], d)));
+                            }
+                            got = Some(b)
+                        },
                         _ => return Err(Failure::new(format!("read|err-on-existing-file|{}", backend), format!("step {}: read({}) failed", step + 1, FILES[k]))),
                     }
                 }
